@@ -21,7 +21,7 @@ ASSUMPTIONS = [
 TRACE_CLASSES = ["iter:for", "iter:while", "iter:do", "break:for", "break:while", "break:do",
                  "continue:for", "continue:while", "continue:do", "flow-in-nested-loop", "int-div",
                  "mixed-promotion", "mixed-compare", "array-write", "field-write", "compound-assign",
-                 "decl-in-loop", "affix:pre", "affix:post", "index:a", "field-read"]
+                 "decl-in-loop", "aggregate-redeclared-in-loop", "affix:pre", "affix:post", "index:a", "field-read"]
 
 
 def program_labels(ctx, case):
@@ -96,5 +96,5 @@ def run(R):
     R.hyp("core", gen.core_case(), check_case, examples=R.pick(300, 5000), shrink="ast")
     for k in ["iter:for", "iter:while", "iter:do", "break:for", "continue:for", "continue:while",
               "continue:do", "int-div", "mixed-promotion", "array-write", "field-write",
-              "compound-assign", "decl-in-loop"]:
+              "compound-assign", "decl-in-loop", "aggregate-redeclared-in-loop"]:
         R.require(k)
